@@ -229,6 +229,7 @@ func Build() *World {
 	w.Feeds["f"] = []string{aliceID, bobID}
 	w.Feeds["one"] = []string{bobID}
 	w.Feeds["none"] = []string{zedID}
+	w.Feeds["two words"] = []string{bobID} // a legal (quoted) TOML key: the argument of :feed is everything after the first blank
 	for name, srcs := range w.Feeds {
 		var heads [][]string
 		for _, s := range srcs {
